@@ -140,7 +140,7 @@ def run(run):
         finally:
             shutil.rmtree(big, ignore_errors=True)
         if not quick:
-            fz = os.path.join(C.VERIF, "harness")
+            fz = C.HARNESS_DIR
             env = dict(C.GOENV, GOFLAGS="-mod=mod")
             rc, out = C.sh(["go", "test", "-tags", "verif", "-run", "^$", "-fuzz", "FuzzBuild", "-fuzztime", "180s", "."], cwd=fz, env=env, timeout=1200)
             run.extra["fuzz_tail"] = out[-600:]
